@@ -58,18 +58,19 @@ theorem C18_manifest_roundtrip (o : WriteOpts) (comments : List Str) (m : Manife
   have hchars : ∀ l ∈ writeLines o comments m, ∀ c ∈ l, c ≠ 10 ∧ c ≠ 13 := by
     intro l hl
     simp only [writeLines, List.mem_cons, List.mem_append, List.mem_map] at hl
-    rcases hl with rfl | hl | ⟨p, hp', rfl⟩
+    rcases hl with (rfl | hl) | ⟨p, hp', rfl⟩
     · exact manHeader_chars m hprod hver
     · exact (hc l hl).2
     · exact entryLine_no_nl o p hn ho (hd p hp')
-  unfold read write
+  unfold EupsModel.Manifest.read EupsModel.Manifest.write
   rw [lines_univ_unlines _ (fun l hl c hcl => (hchars l hl c hcl).1) (fun l hl c hcl => (hchars l hl c hcl).2)]
-  simp only [writeLines, readLines]
   have hh : parseManHeader (manHeader m) = some (m.product.getD sUNKNOWN, m.version.getD sGeneric) := by
     simpa [manHeader] using parseManHeader_manHeader _ _ hp hv
-  rw [hh]
-  simp only [parseEntries_comments recurse comments _ (fun l hl => (hc l hl).1),
-    parseEntries_entries o recurse (written o m) hn ho hd]
+  have he : parseEntries false recurse (comments ++ (written o m).map (entryLine o)) =
+      .ok ((written o m).map (roundDep o recurse)) := by
+    rw [parseEntries_comments recurse comments _ (fun l hl => (hc l hl).1),
+      parseEntries_entries o recurse (written o m) hn ho hd]
+  exact readLines_cons false recurse _ _ _ _ _ hh he
 
 /-- the products come back in install order -/
 theorem C18_manifest_same_order (o : WriteOpts) (comments : List Str) (m : Manifest) (recurse : Bool)
@@ -105,10 +106,10 @@ example :
                       distId := none, isOpt := true }
     let m : Manifest := { product := some (Str.ofString "top"), version := none, deps := [d1, d2] }
     let o : WriteOpts := { noOptional := false, native := Str.ofString "Linux" }
-    read false false (write o [Str.ofString "# pkg flavor"] m) =
-      .ok { product := some (Str.ofString "top"), version := some (Str.ofString "generic"),
-            deps := [{ d1 with }, { product := Str.ofString "afw", version := Str.ofString "1.0", flavor := some (Str.ofString "Linux"),
-                                    tablefile := some (Str.ofString "none"), instDir := some (Str.ofString "none"), distId := none }] } := by
+    (read false false (write o [Str.ofString "# pkg flavor"] m)).toOption =
+      some { product := some (Str.ofString "top"), version := some (Str.ofString "generic"),
+             deps := [{ d1 with }, { product := Str.ofString "afw", version := Str.ofString "1.0", flavor := some (Str.ofString "Linux"),
+                                     tablefile := some (Str.ofString "none"), instDir := some (Str.ofString "none"), distId := none }] } := by
   decide
 
 /-- **D13, pinned tree (negation witnesses).**  The pinned writer (`if not flavor: p.flavor = flavor`) writes the
